@@ -47,4 +47,12 @@ theorem tie_wide_unroutable (rw : Nat) (idx : Key → Nat) (routable : Key → B
     (hr : (MWR Nv.Gen.C01.cfg rw idx routable).Reach ws) (k : Key) (hk : routable k = false) (i : Nat) :
     ws i k = KS.init :=
   (sem_wide_unroutable _ rw idx routable ws hr).2 k hk i
+
+/-- today's configuration with ANY router whose answer depends on the key only — whatever internal state it keeps and
+    whatever other containers of the process do to it: the shards evolve as in `MW`, the token bound holds and a key
+    lives in one shard only (the harness checks purity on the implementation: `wide-routing-changed`, `routing-unstable`) -/
+theorem tie_pure_routing {ρ : Type} (rw : Nat) (hrw : 1 ≤ rw) (R : Router ρ) (r0 : ρ) (idx : Key → Nat)
+    (hp : R.Pure idx) (s : WState × ρ) (hr : (MWH Nv.Gen.C01.cfg rw R r0).Reach s) (k : Key) :
+    (MW Nv.Gen.C01.cfg rw idx).Reach s.1 ∧ wsum (s.1 (idx k) k).holders ≤ rw ∧ (∀ i, i ≠ idx k → s.1 i k = KS.init) :=
+  sem_wide_pure_routing _ tie_cfg_proved rw hrw R r0 idx hp s hr k
 end Nv.C01
